@@ -1,6 +1,7 @@
 (* props/C07.v -- re-delivering already merged data changes nothing.
    Only pinned statements, [exact], non-vacuity examples and Print Assumptions. *)
 From Aqua Require Import Base Trace Handler MergeSpec MergeFull MergeLaws.
+From Aqua Require SeqLocal NetLin NetLinCases NetLinProofs.
 Open Scope N_scope.
 Open Scope list_scope.
 
@@ -85,6 +86,27 @@ Example C07_absorb_example :
   merge_call string String.eqb (Executed (VRStream "c" 3)) (Executed (VRStream "c" 0)) = Ok (Executed (VRStream "c" 3)).
 Proof. vm_compute. repeat split. Qed.
 
+(* ---- history level, straight-line scripts on several peers (model/NetLin.v: the approximation invariant) ----
+   In EVERY honest history of a straight-line script: after a peer has merged a particle, delivering that particle
+   again -- or the merge result itself, or its own earlier data, or nothing -- runs to the same trace and the same
+   last request id, requests nothing and forwards nothing (C07_full_stmt's conclusion, over SeqLocal's histories). *)
+Theorem C07_linear_redelivery : forall svc init ts ttl,
+    NetLin.lin_redelivery_changes_nothing svc init ts ttl RunExec.run1 /\
+    NetLin.lin_redelivery_changes_nothing svc init ts ttl ExecStreams.run2.
+Proof.
+  intros. split; apply NetLinProofs.redelivery_gen; [apply NetLinProofs.run1_step | apply NetLinProofs.run2_step].
+Qed.
+
+(* non-vacuity: the re-delivery and the stale duplicate of the concrete history change no host's data *)
+Example C07_linear_redelivery_example :
+  NetLinCases.nlx_ops = [SeqLocal.OStart; SeqLocal.OAnswer "A" [1%N]; SeqLocal.ODeliver 0 true; SeqLocal.OAnswer "B" [1%N];
+                         SeqLocal.OAnswer "B" [2%N]; SeqLocal.ODeliver 1 false; SeqLocal.ORedeliver 0; SeqLocal.ODeliver 0 false;
+                         SeqLocal.OAnswer "A" [2%N]; SeqLocal.OStart] /\
+  SeqLocal.n_hosts (NetLinCases.nlx_history 7) = SeqLocal.n_hosts (NetLinCases.nlx_history 6) /\
+  SeqLocal.n_hosts (NetLinCases.nlx_history 8) = SeqLocal.n_hosts (NetLinCases.nlx_history 6) /\
+  SeqLocal.n_hosts (NetLinCases.nlx_history 10) = SeqLocal.n_hosts (NetLinCases.nlx_history 9).
+Proof. vm_compute. repeat split; reflexivity. Qed.
+
 Print Assumptions C07_source_tie.
 Print Assumptions C07_call_join_idem.
 Print Assumptions C07_call_join_absorb.
@@ -99,3 +121,4 @@ Print Assumptions C07_same_trace_partial.
 Print Assumptions C07_nothing_partial.
 Print Assumptions C07_tjoin_idem.
 Print Assumptions C07_tjoin_absorb.
+Print Assumptions C07_linear_redelivery.
